@@ -20,7 +20,8 @@ part of the state that belongs to one key only):
   * `cbs_run`       the callback log of key `k` is the log of that per-key fold;
   * `commute`       adjacent operations on different keys commute;
   * `subseq_determines` two executions with the same per-key subsequences agree on every key;
-  * `stored_only_on_owner` a rank that does not own `k` never changes its `k` part.
+  * `stored_only_on_owner` a rank that does not own `k` never changes its `k` part;
+  * `exactly_once_fold` the packaged statement for a `Complete` execution.
 
 Core Lean only (the driver links this file).
 -/
@@ -189,6 +190,21 @@ theorem complete_count [BEq Op] [LawfulBEq Op] (c : Container σ Op Cb) (owner :
     (g : Nat → σ) (main E : List Op) (h : Complete c owner g main E) (op : Op) :
     E.count op = main.count op + (emittedGlobal c owner g E).count op := by
   rw [h.count_eq, List.count_append]
+
+/-- **exactly_once_fold** (the composition the container properties rest on): for a complete
+execution `E`, every rank holds `List.foldl apply init` over the operations it owns in execution
+order, these per-rank subsequences are disjoint and cover `E` (each executed operation is in exactly
+the subsequence of its owner), and every operation is executed as often as it was issued by the main
+program or by a handler -/
+theorem exactly_once_fold [BEq Op] [LawfulBEq Op] (c : Container σ Op Cb) (owner : Op → Nat)
+    (g : Nat → σ) (main E : List Op) (h : Complete c owner g main E) :
+    (∀ r, execGlobal c owner g E r
+        = (E.filter (fun o => owner o = r)).foldl (fun st op => (c.apply st op).1) (g r))
+    ∧ (∀ op r, op ∈ E.filter (fun o => owner o = r) ↔ op ∈ E ∧ owner op = r)
+    ∧ (∀ op, E.count op = main.count op + (emittedGlobal c owner g E).count op) := by
+  refine ⟨fun r => ?_, fun op r => ?_, complete_count c owner g main E h⟩
+  · rw [execGlobal_rank, run_state_eq_foldl]
+  · simp [List.mem_filter]
 
 /-- a rank that is not the owner of key `k` never changes its `k` part: elements are stored on
 their owner only -/
